@@ -114,7 +114,7 @@ class C13(object):
 
     # -- generation -----------------------------------------------------------------------
     def generate(self, rng, tier, i):
-        kind = rng.weighted([("valid", 20), ("mutant", 40), ("random", 12), ("pcr", 20), ("include", 8)])
+        kind = rng.weighted([("valid", 20), ("mutant", 38), ("random", 11), ("pcr", 19), ("include", 8), ("alias", 4)])
         files = {}
         note = ""
         g = ProgGenCache(rng)
@@ -138,6 +138,24 @@ class C13(object):
                 lines = base[:pos] + lines[:2] + base[pos:]
         elif kind == "pcr":
             lines = G.render(G.pcr_stress(rng.fork("pcr")))
+        elif kind == "alias":
+            # symbols defined in terms of other symbols: chains, chains ending in a number or a label, self
+            # definitions, cycles and chains that run into a cycle they are not part of - and a use of every one
+            names = rng.sample(["TEXT", "SCREEN", "VIDRAM", "BASE", "PTR", "TOP"], rng.randint(2, 5))
+            stmts = []
+            for nm in names:
+                target = rng.choice(names + names + ["$400", "START", "1234"])
+                if rng.chance(0.25):
+                    target = "%s%s%s" % (rng.choice(names), rng.choice("+-*/"), rng.choice(["1", "2", rng.choice(names)]))
+                stmts.append({"label": nm, "mn": "EQU", "op": target, "comment": ""})
+            stmts = rng.shuffle(stmts)
+            body = [{"label": "START", "mn": "NOP", "op": "", "comment": ""}]
+            for nm in rng.sample(names, rng.randint(1, len(names))):
+                mn, op = rng.choice([("LDX", "#" + nm), ("LDA", nm), ("FDB", nm), ("LEAX", nm + ",PCR"), ("STA", nm + ",X"), ("JMP", "[" + nm + "]"),
+                                     ("LDD", "#" + nm + "+1")])
+                body.append({"label": "", "mn": mn, "op": op, "comment": ""})
+            pos = rng.randint(0, len(stmts))
+            lines = G.render(stmts[:pos] + body + stmts[pos:])
         else:
             lines, files, note = self.gen_include(rng, g)
         mode = "cli" if rng.chance(0.2) else "api"
@@ -170,7 +188,7 @@ class C13(object):
         base = G.render(g.gen(n=rng.randint(1, 6)).program())
         inc = G.render(g.gen(n=rng.randint(1, 4), labels=["I1", "I2"]).program_body_only())
         variant = rng.choice(["ok", "missing", "missing_nested", "self", "cycle2", "cycle3", "cycle_after_prefix", "dir",
-                              "sibling_names", "dot_self"])
+                              "sibling_names", "dot_self", "is_directory", "through_file", "unreadable", "empty_files", "labelled"])
         files = {}
         pos = rng.randint(0, len(base))
         incline = lambda name: " INCLUDE %s\n" % name
@@ -194,6 +212,26 @@ class C13(object):
             files["a.asm"] = " NOP \n" + incline("b.asm")
             files["b.asm"] = incline("a.asm") + " NOP \n"
             lines = base[:pos] + [incline("a.asm")] + base[pos:]
+        elif variant == "is_directory":
+            files["sub/inc.asm"] = "".join(inc)
+            lines = base[:pos] + [incline("sub")] + base[pos:]                  # EISDIR
+        elif variant == "through_file":
+            files["inc.asm"] = "".join(inc)
+            lines = base[:pos] + [incline("inc.asm/extra.asm")] + base[pos:]    # ENOTDIR
+        elif variant == "unreadable":
+            files["inc.asm"] = "".join(inc)
+            lines = base[:pos] + [incline("inc.asm")] + base[pos:]              # EACCES / EIO injected on open
+        elif variant == "empty_files":
+            # included files that contribute no statement, next to each other and next to a real one
+            files["empty.asm"] = ""
+            files["notes.asm"] = "; only a comment\n\n"
+            files["inc.asm"] = "".join(inc)
+            seq = [incline(rng.choice(["empty.asm", "notes.asm", "inc.asm"])) for _ in range(rng.randint(2, 3))]
+            lines = base[:pos] + seq + base[pos:]
+        elif variant == "labelled":
+            # a label on the INCLUDE line itself
+            files["inc.asm"] = rng.choice(["".join(inc), "", "; nothing here\n"])
+            lines = base[:pos] + ["INCLAB INCLUDE inc.asm\n"] + base[pos:]
         elif variant == "sibling_names":
             # files in a sub-directory naming each other without the directory: relative to the working directory these
             # do not exist (a diagnostic); resolved next to the including file they would form a cycle
@@ -221,12 +259,22 @@ class C13(object):
         for kind in case.get("pre", []):
             self.put_existing_target(w, kind)
             res.stats["fault:pre_existing_target"] += 1
+        unreadable = case["kind"] == "include" and case.get("note") == "unreadable"
+
+        def arm(world):
+            if unreadable and world.get("inc.asm") is not None:
+                import errno as _errno
+                world.fs.faults["inc.asm"] = ("read_error", _errno.EACCES if len(case["lines"]) % 2 else _errno.EIO)
+        arm(w)
         a = assemble(w, "main.asm", texts)
+        if unreadable and a["outcome"] == "OK":
+            res.violate("FAULT-IGNORED", "an unreadable include file was assembled as if it could be read")
         if a["outcome"] == "HANG":
             # confirm at 8x both budgets before reporting (DESIGN C13); the CPU-time backstop grows with the budget too
             w2 = World()
             for name, text in sorted(texts.items()):
                 w2.put(name, text.encode("utf-8"), who="SETUP")
+            arm(w2)
             a2 = assemble(w2, "main.asm", texts, scale=8)
             res.clock += a2["steps"]
             if a2["outcome"] != "HANG":
@@ -241,7 +289,9 @@ class C13(object):
         res.stats["class:" + case["kind"]] += 1
         if case["kind"] == "include":
             res.stats["fault:" + {"ok": "include_ok", "dir": "include_ok", "missing": "missing_include", "sibling_names": "missing_include",
-                                  "missing_nested": "missing_include"}.get(case["note"], "include_cycle")] += 1
+                                  "missing_nested": "missing_include", "is_directory": "include_open_error", "through_file": "include_open_error",
+                                  "unreadable": "include_open_error", "empty_files": "include_ok", "labelled": "include_ok"
+                                  }.get(case["note"], "include_cycle")] += 1
         if outcome == "HANG":
             res.violate("HANG", "assembly did not finish within 8x the step budget (%s); %d line events" % (a["detail"], a["steps"]))
         elif outcome == "INTERNAL":
@@ -252,6 +302,7 @@ class C13(object):
         if case["mode"] == "cli":
             args = list(case.get("args", []))
             switches = "".join(sorted(x[5:8] for x in args if x.startswith("--to_"))) + ("+pre" if case.get("pre") else "") + ("+A" if "--append" in args else "")
+            arm(w)
             r = w.invoke("assembler", ["main.asm"] + args,
                          budget=(process_budget(sum(t.count("\n") + 1 for t in texts.values())) + output_budget(texts.values())) * 8 + 40_000_000)
             res.clock += r.steps
